@@ -17,7 +17,7 @@ import (
 func TestC14(t *testing.T) {
 	simkit.Main(t, "C14", components, func(r *simkit.Run) {
 		only := simkit.Only()
-		mode := rapid.SampledFrom([]string{"rate-projection", "rate-projection", "rate-eviction", "rate-eviction", "conn-twin", "conn-fine"}).Draw(r.T, "mode")
+		mode := rapid.SampledFrom([]string{"rate-projection", "rate-projection", "rate-eviction", "rate-eviction", "rate-eviction-lru", "rate-eviction-lru", "conn-twin", "conn-fine"}).Draw(r.T, "mode")
 		if only != "" {
 			mode = only
 		}
@@ -26,6 +26,8 @@ func TestC14(t *testing.T) {
 			c14projection(r)
 		case "rate-eviction":
 			c14eviction(r)
+		case "rate-eviction-lru":
+			c14evictionLRU(r)
 		case "conn-twin":
 			c14connTwin(r)
 		default:
@@ -336,5 +338,102 @@ func c14connTwin(r *simkit.Run) {
 	r.Probe("conn-twin")
 	r.Sample(func() any {
 		return map[string]any{"mode": "conn-twin", "sources": nsrc, "limit": limit, "requests": total}
+	})
+}
+
+// Over capacity with arbitrary access order and idle gaps beyond the entry
+// lifetime. An entry's lifetime restarts on every access (C03 needs that: a busy
+// source is never forgotten), so "nearest to expiry" is "least recently used",
+// whether or not the entry has meanwhile expired; an expired entry that is
+// touched by its own source starts afresh in the shared limiter and in its twin
+// alike, so the model needs no knowledge of the lifetime itself.
+func c14evictionLRU(r *simkit.Run) {
+	rt := r.T
+	capacity := rapid.IntRange(1, 4).Draw(rt, "capacity")
+	nsrc := capacity + rapid.IntRange(1, 2*capacity).Draw(rt, "extra-sources")
+	var rates []rateSpec
+	for _, p := range []time.Duration{time.Second, 10 * time.Second} {
+		if len(rates) == 0 || rapid.Bool().Draw(rt, "second-rate") {
+			avg := int64(rapid.IntRange(1, 3).Draw(rt, "average"))
+			rates = append(rates, rateSpec{p, avg, int64(rapid.IntRange(1, int(5*avg)).Draw(rt, "burst"))})
+		}
+	}
+	drawRateSource(rt)
+	_, unfreeze := freeze(rt)
+	defer unfreeze()
+	start := clock.Now()
+	A := newTLim(rt, rates, capacity)
+	B := make([]*tlim, nsrc)
+	for i := range B {
+		B[i] = newTLim(rt, rates, 1)
+	}
+	var lru []int // least recently used first
+	touch := func(s int) (evicted int) {
+		evicted = -1
+		for i, x := range lru {
+			if x == s {
+				lru = append(append(lru[:i:i], lru[i+1:]...), s)
+				return
+			}
+		}
+		if len(lru) >= capacity {
+			evicted = lru[0]
+			lru = lru[1:]
+		}
+		lru = append(lru, s)
+		return
+	}
+	var trace []string
+	h := simkit.NewHash()
+	evictions, expiries := 0, 0
+	lastAccess := map[int]time.Duration{}
+	nops := rapid.IntRange(4, 50).Draw(rt, "ops")
+	for i := 0; i < nops; i++ {
+		// different sources are touched at least a second apart (the lifetime is kept in whole seconds)
+		d := time.Second + time.Duration(rapid.Int64Range(0, int64(2*time.Second)).Draw(rt, "dt"))
+		if rapid.IntRange(0, 4).Draw(rt, "long-gap") == 0 {
+			d = time.Duration(rapid.IntRange(20, 400).Draw(rt, "gap-s")) * time.Second
+		}
+		clock.Advance(d)
+		r.SimTime(d)
+		s := rapid.IntRange(0, nsrc-1).Draw(rt, "src")
+		now := clock.Now().Sub(start)
+		if la, ok := lastAccess[s]; ok && now-la > 10*maxPeriod(rates)+2*time.Second {
+			expiries++
+		}
+		lastAccess[s] = now
+		if e := touch(s); e >= 0 {
+			B[e] = newTLim(rt, rates, 1) // the forgotten source starts afresh
+			evictions++
+		}
+		// drain at this instant, so that "starts afresh" is observable later
+		for k := 0; k < 20; k++ {
+			name := srcName(s)
+			ra := A.do(name, 1)
+			rb := B[s].do(name, 1)
+			if len(trace) < 120 {
+				trace = append(trace, fmt.Sprintf("t=%v s%d -> %d", now, s, ra.status))
+			}
+			h.Int(int64(s))
+			h.Int(int64(ra.status))
+			if !ra.same(rb) {
+				r.Tracef("trace: %v", trace)
+				r.Fail("eviction", "t=%v source s%d: limiter of capacity %d answered %d retry=%q; with only the least recently used source forgotten on each insertion (order now %v) the answer is %d retry=%q (rates %v)",
+					now, s, capacity, ra.status, ra.retryHdr, lru, rb.status, rb.retryHdr, rates)
+			}
+			if ra.class() != ansAdmit {
+				break
+			}
+		}
+	}
+	r.SetDigest(uint64(h))
+	if evictions >= 1 {
+		r.Nontrivial()
+	}
+	r.ProbeN("evictions", evictions)
+	r.ProbeN("return-after-entry-lifetime", expiries)
+	r.Probe("rate-eviction-lru")
+	r.Sample(func() any {
+		return map[string]any{"mode": "rate-eviction-lru", "rates": fmt.Sprint(rates), "sources": nsrc, "capacity": capacity, "evictions": evictions, "first_ops": trace}
 	})
 }
